@@ -18,6 +18,15 @@
       admissible segmentation answers OK with the same block, index, `rand`,
       position (so completeness only has to be shown for one-shot runs, and —
       by `fast_eq_slow` — for the slow branch);
+    * `retrieve_header_complete` — a block header the reference accepts
+      (`specHeader`, the header part of `Spec.Bzip2.parseBlock`, see
+      `Lemmas.RetrieveSpecLink.parseBlock_factor`) is never rejected: the
+      retriever arrives at the top of the group loop with exactly the
+      reference's rand flag, origPtr, bytes in use, counts, selector indices,
+      `make_tree` applied to the reference's length lists, and the reference's
+      unread bits — unless the words of the segment run out first (MORE /
+      ERR_EOF), wherever that happens and however often the call is resumed
+      (`retrieve_split`);
     * `retrieve_symbols_complete` — every symbol sequence the reference
       `Spec.Mtf.unMtfRle2` accepts (block ≤ 900000 bytes, EOB present) is
       accepted by the retriever's symbol actions with exactly the reference
@@ -28,6 +37,33 @@ import LbzVerif.Props.C05.Retrieve
 namespace LbzVerif.Props.C06.Retrieve
 open LbzVerif LbzVerif.Model.Retrieve
 open LbzVerif.Lemmas.RetrieveOk
+
+open LbzVerif.Lemmas.RetrieveBits LbzVerif.Lemmas.RetrieveBitmap LbzVerif.Lemmas.RetrieveHeader
+  LbzVerif.Lemmas.RetrieveDelta LbzVerif.Lemmas.RetrieveFrame in
+/-- **retrieve_header_complete.** -/
+theorem retrieve_header_complete (v w : Nat) (ws : List Nat) (inv : BufInv v w)
+    (r idx : Nat) (h : Hdr) (hsp : specHeader (bitsOf (St.start v w) ws) = some (r, idx, h)) :
+    (∃ s rest, toTop (St.start v w) ws = .top s rest ∧
+        HdrOk { St.start v w with rand := r, bwtIdx := idx } s h ∧
+        bitsOf s rest = h.rest ∧ BufInv s.v s.w) ∨
+      (∃ s, toTop (St.start v w) ws = .susp s) := by
+  rw [toTop_init (St.start v w) ws rfl]
+  have hhs := (header_spec { St.start v w with pc := .bwtIdx } ws rfl inv).1 r idx h hsp
+  cases hhs with
+  | inr hsu => exact Or.inr hsu
+  | inl hok =>
+    obtain ⟨s, rest, e, hk, hb, i⟩ := hok
+    exact Or.inl ⟨s, rest, e, Lemmas.RetrieveBitmap.hdrOk_congr _ _ s h hk rfl rfl rfl rfl rfl, hb, i⟩
+
+open LbzVerif.Lemmas.RetrieveBits LbzVerif.Lemmas.RetrieveBitmap LbzVerif.Lemmas.RetrieveHeader in
+-- `tiny`: the reference accepts the header (see Props.C05.Retrieve), five words are enough
+example : (specHeader (bitsOf (St.start 0 0) Props.C09.Retrieve.tiny)).isSome = true ∧
+    (match toTop (St.start 0 0) Props.C09.Retrieve.tiny with
+      | .top s rest => s.numTrees = 2 ∧ s.alphaSize = 4 ∧ s.selector = #[1] ∧ rest = [2863311530, 2863311530]
+      | _ => False) := by
+  constructor
+  · decide +kernel
+  · decide +kernel
 
 /-- **retrieve_complete_partial.**  PARTIAL (see header): completeness is
 invariant under segmentation and under removal of the fast branch. -/
